@@ -13,6 +13,17 @@ ALLOWED_AXIOMS = {
 }
 
 PROPS = {
+    "C02": {
+        "n": {"quick": 2500, "thorough": 60000},
+        "shards": 16,
+        "trusted": [
+            "modelled, not verified: shopspring/decimal Add/Mul/Neg/Abs/IsZero/IsNegative on (mantissa, exponent) (Lib/Dec.v, each with a proved rational-value lemma)",
+            "the text level (lexer/parser) is not part of the C02 theorems: per case the oracle evaluates the exact-rational rule on the structure the text was generated from (Go generator/printer for G, trusted for what it prints) and the tie evaluates the analyzer model on the AST the real parser produced",
+            "the message is compared as a set of (commodity, difference) parts by decimal value; part order is C15's subject",
+        ],
+        "assumptions": ["transactions on which hledger's rule and the exact-sum rule agree: a residual in one commodity only (no implicit price inference), residuals at the written precision"],
+        "explanation": "C02_ast for all posting lists and all decimals; tie+oracle on generated documents through didOpen/publishDiagnostics with every number notation of G",
+    },
     "C17": {
         "n": {"quick": 2000, "thorough": 40000},
         "shards": 16,
